@@ -149,6 +149,8 @@ class Repo:
         if len(self.modules) < 10:
             raise AnalysisError(f"only {len(self.modules)} modules found under {self.pkg}")
         for mi in self.modules.values():
+            self._desugar_getattr(mi)
+        for mi in self.modules.values():
             self._collect_module(mi)
         self._check_dynamic()
         self._mro_cache = {}
@@ -229,6 +231,65 @@ class Repo:
 
     def _visit_expr_for_lambdas(self, mi, expr, qual, cls, parent):
         self._visit(mi, _Body([ast.Expr(value=expr)]), qual, cls, parent)
+
+    def _desugar_getattr(self, mi):
+        """`getattr(E, p)` where p is a parameter of the enclosing function and *every* call of that function in
+        the module passes a string literal for p is rewritten, at load time, into the conditional expression
+        `E.a if p == "a" else E.b if p == "b" else E.c`: an ordinary attribute access for every analysis.  Any other
+        use of getattr stays and is refused by the closed-world guard below."""
+        tree = mi.tree
+        funcs = [n for n in ast.walk(tree) if isinstance(n, ast.FunctionDef)]
+        for f in funcs:
+            params = [a.arg for a in f.args.args]
+            uses = [n for n in ast.walk(f) if isinstance(n, ast.Call) and isinstance(n.func, ast.Name) and n.func.id == "getattr"
+                    and len(n.args) == 2 and not n.keywords and isinstance(n.args[1], ast.Name) and n.args[1].id in params]
+            if not uses:
+                continue
+            for pname in {u.args[1].id for u in uses}:
+                # the parameter must not be re-bound inside the function
+                if any(isinstance(n, ast.Name) and n.id == pname and isinstance(n.ctx, ast.Store) for n in ast.walk(f)):
+                    continue
+                pos = params.index(pname)
+                lits, ok, ncalls = set(), True, 0
+                for c in ast.walk(tree):
+                    if not isinstance(c, ast.Call):
+                        continue
+                    callee = c.func.id if isinstance(c.func, ast.Name) else c.func.attr if isinstance(c.func, ast.Attribute) else None
+                    if callee != f.name:
+                        continue
+                    ncalls += 1
+                    is_method = bool(params) and params[0] in ("self", "cls") and isinstance(c.func, ast.Attribute)
+                    idx = pos - 1 if is_method else pos
+                    arg = next((k.value for k in c.keywords if k.arg == pname), None)
+                    if arg is None and 0 <= idx < len(c.args) and not any(isinstance(a, ast.Starred) for a in c.args):
+                        arg = c.args[idx]
+                    if isinstance(arg, ast.Constant) and isinstance(arg.value, str) and arg.value.isidentifier():
+                        lits.add(arg.value)
+                    else:
+                        ok = False
+                # the function must not escape as a value (only called by name), and must be private to the module
+                escapes = any(isinstance(n, ast.Attribute) and n.attr == f.name and not any(
+                    isinstance(c, ast.Call) and c.func is n for c in ast.walk(tree)) for n in ast.walk(tree))
+                if not ok or not lits or ncalls == 0 or escapes or not f.name.startswith("_"):
+                    continue
+                order = sorted(lits)
+
+                class Rewrite(ast.NodeTransformer):
+                    def visit_Call(self, node):
+                        self.generic_visit(node)
+                        if node in uses and node.args[1].id == pname:
+                            base = node.args[0]
+                            expr = ast.Attribute(value=copy.deepcopy(base), attr=order[-1], ctx=ast.Load())
+                            for lit in reversed(order[:-1]):
+                                test = ast.Compare(left=ast.Name(id=pname, ctx=ast.Load()), ops=[ast.Eq()],
+                                                   comparators=[ast.Constant(value=lit)])
+                                expr = ast.IfExp(test=test, body=ast.Attribute(value=copy.deepcopy(base), attr=lit, ctx=ast.Load()),
+                                                 orelse=expr)
+                            return ast.copy_location(expr, node)
+                        return node
+                import copy
+                Rewrite().visit(f)
+                ast.fix_missing_locations(f)
 
     def _check_dynamic(self):
         for mi in self.modules.values():
